@@ -431,6 +431,7 @@ impl JSON {
                         key_value_pair = [key_value_pair, char.to_string()].join(SYMBOL.empty_string);
                         let mut number_of_open_square_brackets = 1;
                         let mut number_of_closed_square_brackets = 0;
+                        let mut is_inside_string = false;
 
                         let mut read_char = true;
                         while read_char {
@@ -454,13 +455,18 @@ impl JSON {
                             }
                             let char = boxed_parse.unwrap().chars().last().unwrap();
 
-                            let is_open_square_bracket = char == '[';
+                            // a bracket inside a string is text, not nesting
+                            if char == '\"' && !key_value_pair.ends_with('\\') {
+                                is_inside_string = !is_inside_string;
+                            }
+
+                            let is_open_square_bracket = char == '[' && !is_inside_string;
                             if is_open_square_bracket {
                                 number_of_open_square_brackets = number_of_open_square_brackets + 1;
                             }
 
 
-                            let is_close_square_bracket = char == ']';
+                            let is_close_square_bracket = char == ']' && !is_inside_string;
                             if is_close_square_bracket {
                                 number_of_closed_square_brackets = number_of_closed_square_brackets + 1;
                             }
@@ -508,6 +514,7 @@ impl JSON {
                         key_value_pair = [key_value_pair, char.to_string()].join(SYMBOL.empty_string);
                         let mut number_of_open_curly_braces = 1;
                         let mut number_of_closed_curly_braces = 0;
+                        let mut is_inside_string = false;
 
                         let mut read_char = true;
                         while read_char {
@@ -537,13 +544,18 @@ impl JSON {
                             }
                             let char = boxed_last_char.unwrap();
 
-                            let is_open_curly_brace = char == '{';
+                            // a bracket inside a string is text, not nesting
+                            if char == '\"' && !key_value_pair.ends_with('\\') {
+                                is_inside_string = !is_inside_string;
+                            }
+
+                            let is_open_curly_brace = char == '{' && !is_inside_string;
                             if is_open_curly_brace {
                                 number_of_open_curly_braces = number_of_open_curly_braces + 1;
                             }
 
 
-                            let is_close_curly_brace = char == '}';
+                            let is_close_curly_brace = char == '}' && !is_inside_string;
                             if is_close_curly_brace {
                                 number_of_closed_curly_braces = number_of_closed_curly_braces + 1;
                             }
